@@ -34,8 +34,11 @@ SkipC(p) == LET q == SkipCmt(SkipEol(SkipWs(p))) IN IF q = p THEN p ELSE SkipC(q
 \* trace mode for arbitrary real grammars: whitespace and comments are regular expressions of the parse configuration; the harness
 \* tabulates the same fixpoint with Python's re (harness/frompeg.py: skip_table) and the specification reads the table
 Skip(p) == IF "skip" \in DOMAIN Cfg THEN Cfg.skip[p + 1] ELSE SkipC(p)
-\* oracle patterns (trace mode): Cfg.pm[id][p + 1] = [n |-> matched length or -1, v |-> value]
-OPat(e, p) == Cfg.pm[e.id][p + 1]
+\* oracle patterns (trace mode): Cfg.pm[id] maps the positions at which the engine tried a pattern (as strings) to
+\* [n |-> matched length or -1, v |-> value]; a position the engine never tried reads as "no match" (the trace is then rejected at
+\* the next event, because the engine left no match event there)
+OPat(e, p) == LET row == Cfg.pm[e.id]  k == ToString(p) IN
+              IF k \in DOMAIN row THEN row[k] ELSE [n |-> 0 - 1, v |-> None]
 
 IsNameChar(c) == InSeq(c, Cfg.alnum) \/ InSeq(c, Cfg.namechars)
 IsNameTok(s)  == /\ Len(s) > 0
@@ -157,6 +160,7 @@ E(e, p, ns, sd, d) ==
     [] e.op = "opat" -> LET m == OPat(e, p) IN IF m.n < 0 THEN F ELSE S(p + m.n, <<m.v>>, m.v, ns, FALSE)
     [] e.op = "meta" -> LET r == MetaMatch(e.kind, Skip(p)) IN
                         IF r.ok THEN S(r.p, <<r.v>>, r.v, ns, FALSE) ELSE F
+    [] e.op = "eol" -> LET q == Cfg.eol[p + 1] IN IF q < 0 THEN F ELSE S(q, <<>>, None, ns, FALSE)      \* $-> (trace mode: tabulated)
     [] e.op = "dot" -> IF p < N THEN S(p + 1, <<Str(<<Inp[p + 1]>>)>>, Str(<<Inp[p + 1]>>), ns, FALSE) ELSE F
     [] e.op = "const" -> S(Skip(p), <<e.v>>, e.v, ns, FALSE)
     [] e.op = "constbad" -> KoSem
